@@ -326,6 +326,19 @@ def gen_unit(rng, depth):
     return expr(depth)
 
 
+# canaries: fixed expressions whose outcome on a pristine fresh instance is recorded at the
+# start of every run; any instance must give exactly that outcome at any later time (an
+# absolute reference - the differential oracle alone would not notice state shared by all
+# instances, e.g. a class attribute)
+CANARIES = {
+    "numeric": ["1", "2+3*4", "(1+2)*3-4/2", "-2**2", "sin(0)+cos(0)", "1<2&&3>=3", "foo*bar",
+                "pow(2,3)"],
+    "subset": ["1", "2+3*4", "(1+2)*3", "foo*bar+1"],
+    "string": ["a", "a+bc", "(a+bc)>x y z", "limit+100 km"],
+    "unit": ["m", "kg*m2/s2", "km/(s*K)", "1e3*J"],
+}
+BASE_CANARIES = [c for c in CANARIES["numeric"] if "foo" not in c]
+
 OPENERS = set(["("] + FUNC1 + FUNC2)
 BINOPS = {"||", "&&", "==", "!=", "<=", ">=", "<", ">", "+", "-", "*", "/", "**"}
 
@@ -456,6 +469,12 @@ class SolverMachine(Machine):
         self.swept = False
         self.abstract = "new"
         InjectedFault.arm(None)
+        # pristine outcomes, before any history of this run
+        self.pristine = {}
+        with np.errstate(all="ignore"):
+            for k in KIND_ORDER:
+                cans = BASE_CANARIES if k == "base" else CANARIES[KINDS[k][1]]
+                self.pristine[k] = {c: observe(lambda: KINDS[k][0]().solve(c)) for c in cans}
 
     def stop(self):
         InjectedFault.arm(None)
@@ -476,6 +495,9 @@ class SolverMachine(Machine):
             return self.queue.pop(0)
         cfg = self.cfg
         kind = rng.choice(cfg["kinds"])
+        if rng.random() < 0.12:
+            cans = BASE_CANARIES if kind == "base" else CANARIES[KINDS[kind][1]]
+            return {"op": "canary", "inst": kind, "expr": rng.choice(cans)}
         toks, family = self._valid(rng, kind)
         # fault enumeration: once per run, sweep a fault over every position
         if cfg["sweep"] and not self.swept and rng.random() < 0.3:
@@ -540,6 +562,8 @@ class SolverMachine(Machine):
             self.last[kind] = "new"
             self.failed_before[kind] = False
         es = self.inst[kind]
+        if op["op"] == "canary":
+            return self._apply_canary(op, kind, es)
         expr, fault = op["expr"], op["fault"]
         # probe (private state, never part of the verdict)
         t = getattr(es, "tokens", None)
@@ -575,6 +599,31 @@ class SolverMachine(Machine):
         self.last[kind] = outcome
         self.abstract = ",".join(f"{k}={self.last[k]}" for k in sorted(self.last))
         return outcome, want
+
+    def _apply_canary(self, op, kind, es):
+        want = self.pristine.get(kind, {}).get(op["expr"])
+        if want is None:
+            return "skip", None
+        if self.failed_before[kind]:
+            self.stats.probe("canary_after_failed_call")
+        with np.errstate(all="ignore"):
+            InjectedFault.arm(None)
+            got = observe(lambda: es.solve(op["expr"]))
+            fresh = observe(lambda: KINDS[kind][0]().solve(op["expr"]))
+        if got != want:
+            raise Violation("history_dependence_vs_pristine",
+                            {"instance": kind, "expr": op["expr"], "reused_instance": got,
+                             "pristine_fresh_instance_at_run_start": want,
+                             "fresh_instance_now": fresh},
+                            signature=f"C02/pristine/{kind}")
+        if fresh != want:
+            # a brand-new instance is affected by what other instances solved: state shared
+            # between instances; the long-lived instance's own later answers depend on it too
+            raise Violation("fresh_instance_depends_on_earlier_solves",
+                            {"instance": kind, "expr": op["expr"], "fresh_instance_now": fresh,
+                             "pristine_fresh_instance_at_run_start": want},
+                            signature=f"C02/shared_state/{kind}")
+        return "canary_ok", want
 
     @classmethod
     def simplify(cls, op):
